@@ -200,11 +200,19 @@ def raise_errors(*args):
         raise FoundError(err=v)
 
 
+def _float(value):
+    res = float(value)
+    if isinstance(value, str) and ('_' in value or not np.isfinite(res)):
+        # `float` reads `inf`, `nan`, `1_000` and `1e999`; Excel does not.
+        raise ValueError(value)
+    return res
+
+
 def _to_number(number):
     if isinstance(number, (bool, np.bool_)):
         return np.nan
     try:
-        return float(number)
+        return _float(number)
     except (ValueError, TypeError):
         return np.nan
 
@@ -231,7 +239,7 @@ def is_number(number, xl_return=True, bool_return=False):
         return False
     else:
         try:
-            float(number)
+            _float(number)
         except (ValueError, TypeError):
             return False
     return True
@@ -242,7 +250,7 @@ def _text2num(value):
         value = value.tolist()
     if not isinstance(value, Error) and isinstance(value, str):
         try:
-            return float(value)
+            return _float(value)
         except (ValueError, TypeError):
             from .date import xdate, _text2datetime
             try:
@@ -262,7 +270,7 @@ def _convert2float(v):
     if isinstance(v, bool):
         return int(v)
     if isinstance(v, str):
-        return float(_text2num(v))
+        return _float(_text2num(v))
     return float(v)
 
 
@@ -272,7 +280,7 @@ def _convert_args(v):
     if isinstance(v, bool):
         return int(v)
     if isinstance(v, str):
-        return float(_text2num(v))
+        return _float(_text2num(v))
     return v
 
 
@@ -415,7 +423,7 @@ def convert_noshp(value):
 
 
 def wrap_ufunc(
-        func, input_parser=lambda *a: map(float, a), check_error=get_error,
+        func, input_parser=lambda *a: map(_float, a), check_error=get_error,
         args_parser=lambda *a: map(replace_empty, a), otype=Array,
         ranges=False, return_func=lambda res, *args: res, check_nan=True, **kw):
     """Helps call a numpy universal function (ufunc)."""
